@@ -18,6 +18,10 @@ func genC17(rng *Rng, sc *STScript) *STScript {
 	}
 	sc.Roots = []string{Pick(rng, []string{"cdc", "by-dev/meta", "root_1"})}
 	tasks := []string{"t1", "t2"}
+	if rng.Pct(30) {
+		tasks = []string{"t1", "t11"} // ids that are prefixes of one another
+	}
+	prefixIDs := rng.Pct(40) // message ids that are prefixes of one another (collection 4 / 41, partition 7-1 / 7-12)
 	type msg struct {
 		kind   string
 		id     string
@@ -34,6 +38,12 @@ func genC17(rng *Rng, sc *STScript) *STScript {
 		id := fmt.Sprintf("drop-collection-%d", 400+i)
 		if kind == "part" {
 			id = fmt.Sprintf("drop-partition-%d-%d", 400+i, 9000+i)
+		}
+		if prefixIDs {
+			id = fmt.Sprintf("drop-collection-%s", []string{"4", "41", "412"}[i])
+			if kind == "part" {
+				id = fmt.Sprintf("drop-partition-7-%s", []string{"1", "12", "123"}[i])
+			}
 		}
 		msgs = append(msgs, msg{kind, id, sh})
 	}
@@ -60,7 +70,7 @@ func genC17(rng *Rng, sc *STScript) *STScript {
 
 func runC17(s *Sim, sc *STScript) {
 	ctx := context.Background()
-	g := &seqGate{tape: s.Tape, budget: sc.Faults, fired: map[string]int{}}
+	g := &seqGate{tape: s.Tape, budget: sc.Faults, fired: map[string]int{}, failAt: -1}
 	var rs coreapi.ReplicateStore
 	if sc.Backend == "memory" {
 		rs = &memReplicateStore{m: map[string]coreapi.MetaMsg{}}
